@@ -305,8 +305,42 @@ def coqchk(pid, timeout=1800):
 HEADER_CASES = 'From Coq Require Import List ZArith QArith Bool.\nImport ListNotations.\n'
 
 
+_ENSURED = set()
+_ENSURE_LOCK = None
+
+
+def ensure_case_deps(text):
+    """A case file may import modules of this development that are not
+    dependencies of the property file (the executable Q instances): build them
+    (once per process) before the case is compiled, so that a fresh checkout
+    needs nothing beyond `./check --setup` / the check itself."""
+    global _ENSURE_LOCK
+    import threading
+    if _ENSURE_LOCK is None:
+        _ENSURE_LOCK = threading.Lock()
+    mods = set()
+    # every sentence `[From PA] Require [Import|Export] a.b c.d .`
+    for m in re.finditer(r'(From\s+PA\s+)?Require\s+(?:Import\s+|Export\s+)?([A-Za-z0-9_.\'\s]+?)\.(?=\s|$)', text):
+        for w in m.group(2).split():
+            if m.group(1):
+                mods.add(w)
+            elif w.startswith('PA.'):
+                mods.add(w[3:])
+    targets = []
+    for w in sorted(mods):
+        rel = w.replace('.', '/')
+        if os.path.exists(os.path.join(COQ, rel + '.v')):
+            targets.append(rel + '.vo')
+    with _ENSURE_LOCK:
+        todo = [t for t in targets if t not in _ENSURED]
+        if todo:
+            coq_make(todo)
+            _ENSURED.update(todo)
+
+
 def coq_eval(name, text, timeout=900):
     """Compile a generated case file under coq/cases and return its output."""
+    ensure_case_deps(text)
     d = os.path.join(COQ, 'cases')
     os.makedirs(d, exist_ok=True)
     # one file per process: two runs of the same check at the same time (quick and
